@@ -229,6 +229,18 @@ func verdict(o outcome) (class, what string, discarded bool) {
 	if o.Ref.Error != "" {
 		return "", "", true
 	}
+	// Guard of the equality clause's domain: a placeholder that Maven itself
+	// leaves unresolved is outside the supported subset (the library drops
+	// such a dependency by design); the generator never produces one.
+	for _, rows := range [][]Row{o.Ref.Deps, o.Ref.Mgmt} {
+		for _, r := range rows {
+			for _, f := range r.F {
+				if strings.Contains(f, "${") {
+					return "", "", true
+				}
+			}
+		}
+	}
 	if o.LibErr != "" {
 		return "C15:lib-error:" + o.LibStage, "Maven builds the effective model, the library pipeline fails: " + o.LibErr, false
 	}
@@ -796,7 +808,7 @@ func (m *monitor) dir() string {
 type classified struct {
 	out       outcome
 	discarded bool
-	class     string   // "" = both sides agree
+	class     string // "" = both sides agree
 	what      string
 	known     []string // classes of the known shapes the difference is attributed to (empty = fresh)
 }
@@ -904,6 +916,10 @@ func (m *monitor) process(ls []*Lineage, generated bool) error {
 	for i, l := range ls {
 		c := res[i]
 		if c.discarded {
+			if c.out.Ref.Error == "" {
+				r.Count("discarded:maven-leaves-placeholder", 1)
+				continue
+			}
 			r.Count("discarded:maven-rejects", 1)
 			if n := r.Counter("discarded:maven-rejects"); n <= 3 {
 				r.Set(fmt.Sprintf("discard_example_%d", n), c.out.Ref.Error)
